@@ -273,3 +273,52 @@ def float_shim(x=0.0):
     if isinstance(x, SymReal):
         return x
     return builtins.float(x)
+
+
+# ------------------------------------------------------------------ subscripts / lookups with a symbolic int key
+_TABLES = {}
+
+
+def _lookup(container, key, default, missing):
+    """container[key] for a concrete dict / list / tuple / bytes / str and a symbolic int key, without enumerating the key's
+    values: a dict forks once per key it holds, a sequence of small ints becomes an ITE mux, any other sequence forks once per
+    position.  Semantics are those of the native operation (KeyError / IndexError / negative indices included)."""
+    if isinstance(container, dict):
+        for k in list(container):
+            if isinstance(k, (builtins.int, SymInt)) and not isinstance(k, builtins.bool):
+                if key == k:
+                    return container[k]
+        if missing is KeyError:
+            raise KeyError(key)
+        return default
+    n = builtins.len(container)
+    if n <= 512:
+        if key.s and core.CTX.branch((key < 0).t):
+            return container[key.__index__()]
+        if core.CTX.branch((key >= n).t):
+            raise IndexError("index out of range")
+        if isinstance(container, (bytes, bytearray)) or (n > 4 and builtins.all(type(v) is builtins.int and 0 <= v < (1 << 32) for v in container)):
+            tid = id(container) if isinstance(container, (tuple, bytes)) else None
+            tab = _TABLES.get(tid) if tid is not None else None
+            if tab is None or tab[0] is not container:
+                tab = (container, core.SymTable(list(container)))
+                if tid is not None:
+                    _TABLES[tid] = tab
+            return tab[1][key]
+        for i in builtins.range(n):
+            if key == i:
+                return container[i]
+        raise IndexError("index out of range")
+    return container[key.__index__()]
+
+
+def sub_shim(container, key):
+    if type(key) is SymInt and type(container) in (dict, list, tuple, bytes, bytearray, str):
+        return _lookup(container, key, None, KeyError)
+    return container[key]
+
+
+def dict_get(container, key, default=None):
+    if type(key) is SymInt:
+        return _lookup(container, key, default, None)
+    return container.get(key, default)
